@@ -421,6 +421,8 @@ pub enum LOp {
     ForSum { l: ListId },
     /// `into_iter().collect()`: a sequence of atomic `get(i)`, observed values in order
     IterVals { l: ListId },
+    /// `join(sep)` of a list of strings: one atomic read
+    Join { l: ListId, sep: String },
     /// no effect on the model (handle clone/drop)
     Nop,
 }
@@ -489,6 +491,10 @@ fn steps(ev: &Event, sub: &Sub, heap: &Heap) -> Vec<(Sub, Option<Heap>)> {
         (LOp::ReadAll { l }, Sub::Fresh) => {
             let ok = matches!(&ev.obs, Obs::Vals(v) if snapshot_eq(heap, v, *l));
             done(ok, &mut out)
+        }
+        (LOp::Join { l, sep }, Sub::Fresh) => {
+            let want = heap.lists[*l].iter().map(|v| if let MVal::Str(s) = v { s.as_str() } else { "?" }).collect::<Vec<_>>().join(sep);
+            done(ev.obs == Obs::Text(want), &mut out)
         }
         (LOp::IterVals { .. }, Sub::Fresh) => {
             return steps(ev, &Sub::Loop(0, 0), heap);
